@@ -5,7 +5,7 @@ import sys
 import time
 
 from . import core, engine, roles as roles_mod
-from . import search, nfa, da, ser, cli
+from . import search, nfa, da, ser, cli, pure
 
 TRUSTED = [
     "L1: for a power of two B, x < kB and c < B imply x ^ c < kB; next_power_of_two(n) >= n",
@@ -116,10 +116,13 @@ def run_C07(ctx, R):
     da.rule_array_growth(ctx, R, E.NR, E.BR)
     da.rule_build_entry(ctx, R, E.NR, E.BR, rules={"B-MOVE"})
     da.rule_dispatch(ctx, R, E.NR, E.BR, rules={"B-MAP"})
+    pure.rule_mapper(ctx, R)
+    pure.rule_pure_freeze(ctx, R)
 
 
 def run_C08(ctx, R):
     E = Env(ctx, R)
+    pure.rule_mapper(ctx, R)
     nfa.rule_num_bytes(ctx, R, E.NR)
     da.rule_dispatch(ctx, R, E.NR, E.BR, rules={"CW-NB"})
     search.rule_iter_leftmost(ctx, R, rules={"SAFE-STR"})
@@ -158,7 +161,16 @@ def run_C13(ctx, R):
 
 def run_C14(ctx, R):
     E = Env(ctx, R)
+    pure.rule_pure_self(ctx, R)
+    pure.rule_pure_freeze(ctx, R)
+    pure.rule_det_effect(ctx, R)
+    pure.rule_perm_map(ctx, R, E.NR)
+    pure.rule_mapper(ctx, R, rules={"B-MAP"})
     da.rule_dispatch(ctx, R, E.NR, E.BR, rules={"PERM-FREQ", "B-MAP"})
+    # PERM-OUT / PERM-IDS: outputs are filled in queue order, the id-ordered pass writes only through state_id_map
+    nfa.rule_outputs_pass(ctx, R, E.NR)
+    nfa.rule_fail_passes(ctx, R, E.NR)
+    da.rule_placement(ctx, R, E.NR, E.BR, rules={"B-FAIL", "B-OPOS", "DA-EDGE", "DA-BASE"})
 
 
 def run_C15(ctx, R):
